@@ -212,6 +212,8 @@ class World:
         self.hooks = P(params, "hooks", True)
         self.rclass_obj = P(params, "rclass_obj", False)
         self.fault = None  # set by fault-plan harnesses
+        self.callno = 0
+        self.hook_calls = {}
         self.place = None
         if P(params, "place", False):
             pp = P(params, "pin_place", {})
@@ -266,6 +268,7 @@ class World:
             w.t(("strategy", which, w.n, ctxinfo, raw, rk))
             f = w.fault
             if f is not None and f.get("site") == "strategy" and f.get("at") in (None, j):
+                w.t(("hook_raises", "strategy"))
                 raise f["exc"]()
             return raw
 
@@ -283,14 +286,15 @@ class World:
         return ctxstrat
 
     def _outcome(self, i):
-        if i > self.N:
+        if i > (self.N if not self.callno else P(self.p, "N_later", self.N)):
             return ("ok", None)
         if i in self.script:
             return self.script[i]
-        kind = self.choice(f"o{i}", self.kinds)
+        pre = f"c{self.callno}" if self.callno else ""
+        kind = self.choice(f"{pre}o{i}", self.kinds)
         klass = None
         if kind in ("exc", "res"):
-            klass = self.choice(f"k{i}", self.classes)
+            klass = self.choice(f"{pre}k{i}", self.classes)
         self.script[i] = (kind, klass)
         return (kind, klass)
 
@@ -299,7 +303,7 @@ class World:
         i = self.n
         self.t(("op", i, self.now))
         if self.timed:
-            self.clock.now = self.now + self.dur(f"d{i}")
+            self.clock.now = self.now + self.dur(f"d{i}" + (f"c{self.callno}" if self.callno else ""))
         self.t(("op_end", i, self.now))
         kind, klass = self._outcome(i)
         if kind == "ok":
@@ -349,7 +353,10 @@ class World:
         self.t(("classify", getattr(e, "i", None)))
         f = self.fault
         if f is not None and f.get("site") == "classifier":
-            raise f["exc"]()
+            f["count"] = f.get("count", 0) + 1
+            if f.get("at") in (None, f["count"]):
+                self.t(("hook_raises", "classifier"))
+                raise f["exc"]()
         k = getattr(e, "klass", None) or EC.UNKNOWN
         if self.rclass_obj:
             c = Classification(klass=k, retry_after_s=self._retry_after(e))
@@ -443,6 +450,20 @@ class World:
                 return fn(*a, level)
         return bound
 
+    def _attempt_hook(self, which, ctx):
+        self.hook_calls[which] = self.hook_calls.get(which, 0) + 1
+        self.t((which, ctx.attempt, ctx.decision))
+        f = self.fault
+        if f is not None and f.get("site") == which and f.get("at") in (None, self.hook_calls[which]):
+            self.t(("hook_raises", which))
+            raise f["exc"]()
+
+    def on_attempt_start(self, ctx):
+        self._attempt_hook("attempt_start", ctx)
+
+    def on_attempt_end(self, ctx):
+        self._attempt_hook("attempt_end", ctx)
+
     def on_metric(self, event, attempt, sleep_s, tags):
         self.t(("metric", event, attempt, sleep_s, dict(tags)))
         f = self.fault
@@ -508,6 +529,9 @@ class World:
                                       else self.before_sleep)
         if P(self.p, "operation", None):
             kw["operation"] = self.p["operation"]
+        if P(self.p, "attempt_hooks", False):
+            kw["on_attempt_start"] = self.on_attempt_start
+            kw["on_attempt_end"] = self.on_attempt_end
         return kw
 
     def env(self):
